@@ -1,0 +1,27 @@
+//go:build verif
+
+package ignore
+
+// Contracts for the VCS-directory ignorer (property C14). Comment-only file:
+// compiled only under the "verif" build tag, contains no code. The "//@"
+// lines are read by /verif/govc.
+
+// An Ignorer returns the same results for the same arguments (documented on
+// the interface): abstracted by two uninterpreted functions.
+//@ ufunc ignStatus(ig int, path string, directory bool) int
+//@ ufunc ignContinue(ig int, path string, directory bool) bool
+//@ iface Ignorer.Ignore
+//@   params self, path, directory
+//@   pure
+//@   ensures result0 == ignStatus(self, path, directory) && result1 == ignContinue(self, path, directory)
+
+// The contents of vcsDirectoryNames are taken by the verifier from the package
+// initialiser (a constant map literal that is never written).
+
+//@ pred isVCSName(s) = s == ".git" || s == ".svn" || s == ".hg" || s == ".bzr" || s == "_darcs"
+
+//@ func (*vcsIgnorer).Ignore
+//@   requires i != nil && (path == "" || path[len(path) - 1] != '/')
+//@   ensures[vcs] directory && isVCSName(fastpath.Base(path)) ==> result0 == IgnoreStatusIgnored && !result1
+//@   ensures[delegate] !(directory && vcsDirectoryNames[fastpath.Base(path)]) ==> result0 == ignStatus(i.ignorer, path, directory) && result1 == ignContinue(i.ignorer, path, directory)
+//@   modifies
